@@ -204,7 +204,8 @@ impl<T: Borrow<SetU32>> Iterator for Inner<T> {
                 .cloned()
                 .filter(|&x| x != 0)
                 .map(|x| {
-                    x >> self.bits as u32 + (x & mask(self.bits as usize)).leading_zeros() - 31
+                    (x >> self.bits) * self.bits as u32 + 31
+                        - (x & mask(self.bits as usize)).leading_zeros()
                 })
                 .next(),
             Internal::Big { a, .. } => a
@@ -228,7 +229,8 @@ impl<T: Borrow<SetU32>> Iterator for Inner<T> {
         }
         match self.set.borrow().internal() {
             Internal::Empty => None,
-            Internal::Stack(t) => t.min(),
+            // Inline sets iterate in increasing order.
+            Internal::Stack(_) => self.next(),
             Internal::Heap { a, .. } => {
                 if self.whichbit == 0 {
                     let x = a.into_iter().cloned().filter(|x| *x != 0).min().unwrap();
@@ -243,7 +245,7 @@ impl<T: Borrow<SetU32>> Iterator for Inner<T> {
                     Some(min)
                 }
             }
-            Internal::Big { a, .. } => a
+            Internal::Big { a, .. } => a[self.index..]
                 .into_iter()
                 .cloned()
                 .filter(|x| *x != 0)
@@ -279,7 +281,7 @@ impl<T: Borrow<SetU32>> Iterator for Inner<T> {
             }
             Internal::Big { a, .. } => {
                 let mut biggest = 0;
-                for &x in a {
+                for &x in &a[self.index..] {
                     if x != 0 {
                         biggest = biggest.max(if x == self.bits as u32 { 0 } else { x });
                     }
